@@ -46,7 +46,7 @@ class Overlap1D(Case):
             return cs
         Case.__init__(s, f'ov1{"n" if neg else ""}{"" if noalias else "s"}{"t" if twice else ""}_{SHORT[T]}_{N}_{n}_{OPN[op]}_{rhs}', [a] + extra + sc, k, r,
                       desc=f'{stmt} on Tensor<{T},{N}>, extent {n}', pre=pre)
-        s.dom = 'uf' if T in FT else 'bits'; s.uf_int = T in IT; s.max_paths = 600; s.timeout = 30
+        s.dom = 'uf' if T in FT else 'bits'; s.uf_int = T in IT; s.max_paths = 600; s.timeout = 30; s.weight = 10
 
 
 class Overlap2D(Case):
@@ -63,7 +63,7 @@ class Overlap2D(Case):
             if not noalias: cs += [V[x + '1'] == V[x + '2'] for x in 'flsght']
             return cs
         Case.__init__(s, f'ov2{"" if noalias else "s"}_{SHORT[T]}_{M}x{N}_{m}x{n}_{OPN[op]}', [a] + sc, k, r, desc=f'2-D overlapping view assignment {op} on {M}x{N}, extent {m}x{n} {T}', pre=pre)
-        s.dom = 'uf' if T in FT else 'bits'; s.uf_int = T in IT; s.max_paths = 600; s.timeout = 30
+        s.dom = 'uf' if T in FT else 'bits'; s.uf_int = T in IT; s.max_paths = 600; s.timeout = 30; s.weight = 40
 
 
 class FixSelf2D(Case):
